@@ -50,7 +50,7 @@ LEVEL_TEXT = ("Proof. lean/BarterModel/Props/C19.lean proves for EVERY engine st
               "cancel_command_effect (exactly the orders with a delivered cancel become cancel-in-flight, every other table entry is unchanged); repeat_requests_nothing_new (any links: the repeated command "
               "generates only requests the first generated and could not deliver), repeat_idempotent (all links of generated requests healthy => the repeat generates nothing), repeat_sends_nothing; "
               "keys_unique_invariant / tables_unique_invariant (the key-uniqueness hypothesis holds after any engine history from empty tables). "
-              "The position a closing order is built from is the NET of the account trades: net_position_after_fills (after any history of positive fills from flat the carried (side, quantity) is the signed sum "
+              "The position a closing order is built from is the NET of the account trades: close_request_of_net_history (long net => SELL of exactly the signed sum, short net => BUY of its absolute value, zero net => no closing order), net_position_after_fills (after any history of positive fills from flat the carried (side, quantity) is the signed sum "
               "of the fills), fill_update_sets_net, netted_trade_is_recovered, and netting_is_the_position_model / entering_is_the_position_model (the engine-level netFill IS the C02 position model's "
               "Position::update_from_trade projected on side and open quantity, for every position and every trade of positive quantity).")
 LEVEL_NOTE = ("Trusted: Lean kernel; axioms propext/Classical.choice/Quot.sound; the hand-written engine model shared with C03 (tied to the code by sampled correspondence through the real Engine::process with real "
